@@ -1,6 +1,7 @@
 package props
 
 import (
+	"errors"
 	"fmt"
 	"net"
 	"os"
@@ -22,7 +23,7 @@ import (
 type c19Case struct {
 	Launch   string     `json:"launch"`    // script | runner | cmd
 	FirstOK  bool       `json:"first_ok"`  // the plugin comes up properly
-	FailKind string     `json:"fail_kind"` // badline | timeout | exit
+	FailKind string     `json:"fail_kind"` // badline | timeout | exit | starterr (scripted launch: runner.Start itself returns an error)
 	Proto    string     `json:"proto"`     // netrpc | grpc (real plugin launches)
 	Ops      [][]string `json:"ops"`       // one op list per goroutine (one list = sequential)
 }
@@ -34,6 +35,9 @@ func c19Gen(t *rapid.T) any {
 	c.Launch = []string{"script", "runner", "cmd"}[weighted(t, "launch", 50, 30, 20)]
 	c.FirstOK = rapid.Bool().Draw(t, "firstok")
 	c.FailKind = oneOf(t, "failkind", []string{"badline", "badline", "exit", "timeout"})
+	if c.Launch == "script" && !c.FirstOK && pct(t, "starterr", 30) {
+		c.FailKind = "starterr"
+	}
 	c.Proto = oneOf(t, "proto", []string{"netrpc", "grpc"})
 	ng := 1
 	if rapid.Bool().Draw(t, "concurrent") {
@@ -63,6 +67,9 @@ func c19Run(ci any) (out Outcome) {
 	marker := filepath.Join(caseDir, "launches")
 	out.label("launch:%s", c.Launch)
 	out.label("first_ok:%v", c.FirstOK)
+	if !c.FirstOK {
+		out.label("fail:%s", c.FailKind)
+	}
 	if len(c.Ops) > 1 {
 		out.label("concurrent")
 	} else {
@@ -112,6 +119,9 @@ func c19Run(ci any) (out Outcome) {
 				steps = []FakeStep{{Op: "out", Data: []byte("1|1|tcp|127.0.0.1:1|netrpc\n")}, {Op: "forever"}}
 			}
 			sr := newScriptRunner(FakeSpec{Steps: steps})
+			if !c.FirstOK && c.FailKind == "starterr" {
+				sr.startErr = errors.New("the runner could not start the plugin")
+			}
 			sr.onStart = func() { atomic.AddInt32(&launches, 1) }
 			mu.Lock()
 			scripts = append(scripts, sr)
@@ -302,7 +312,7 @@ var propC19 = register(&Prop{
 	Run: c19Run,
 	Iso: true,
 	Rule: "rapid draws a launch method (in-process scripted RunnerFunc / RunnerFunc wrapping a real process / exec.Cmd), whether the first start succeeds (real plugin over net/rpc or gRPC) or fails " +
-		"(bad line, early exit, timeout), and 1-8 op lists over {Start, Client, Protocol, ReattachConfig, ID, Exited, Kill, NegotiatedVersion} run sequentially (one list) or concurrently (one goroutine per list); " +
+		"(bad line, early exit, timeout, runner.Start returning an error), and 1-8 op lists over {Start, Client, Protocol, ReattachConfig, ID, Exited, Kill, NegotiatedVersion} run sequentially (one list) or concurrently (one goroutine per list); " +
 		"an epilogue calls Kill and then Start/Client/Protocol/ReattachConfig again. Oracle (model): launches (runner.Start calls or process start markers) <= 1, no launch after Kill, all successful Starts return the identical address and all successful Clients the identical pointer, no panic, no orphaned plugin-dir*. " +
 		"Non-trivial: a retry after a failed start, a Kill inside the list, or >= 2 goroutines.",
 	Assumptions: []string{"RunnerFunc itself always succeeds; launches are counted at runner.Start"},
